@@ -95,6 +95,9 @@ def run(sid, tier='quick'):
                         'detected': rc == 1})
     finally:
         sh('git checkout -- .', cwd=REPO)
+        # native replays refresh /repo/_build from the (patched) tree; bring it back to the clean tree
+        if os.path.isdir(os.path.join(REPO, '_build')):
+            sh('cmake --build _build -j16 -- -k 0', cwd=REPO)
         if saved is not None:
             open(ev, 'w').write(saved)
     meta.setdefault('check_runs', []).append(rec)
